@@ -67,24 +67,22 @@ theorem dupName (k : ResKey) :
     hasDupName S'.atoms (members S'.atoms k) = hasDupName S.atoms (members S.atoms k) := by
   apply Bool.eq_iff_iff.mpr
   unfold hasDupName
-  simp only [List.any_eq_true, Bool.and_eq_true, bne_iff_ne, ne_eq, beq_iff_eq]
+  simp only [List.any_eq_true, Bool.and_eq_true, bne_iff_ne, ne_eq]
   constructor
-  · rintro ⟨i, hi, j, hj, ⟨hne, hs⟩, he⟩
+  · rintro ⟨i, hi, j, hj, hne, hs⟩
     obtain ⟨hi', ri⟩ := R.mem_members_bwd hi
     obtain ⟨hj', rj⟩ := R.mem_members_bwd hj
     have li := (mem_members.mp hi').1
     have lj := (mem_members.mp hj').1
-    refine ⟨τ i, hi', τ j, hj', ⟨?_, ?_⟩, ?_⟩
+    refine ⟨τ i, hi', τ j, hj', ?_, ?_⟩
     · intro e; apply hne; rw [← ri, ← rj, e]
-    · rw [← R.atom _ li, ri]; exact hs
-    · rw [← R.atom _ li, ← R.atom _ lj, ri, rj]; exact he
-  · rintro ⟨i, hi, j, hj, ⟨hne, hs⟩, he⟩
+    · rw [← R.atom _ li, ← R.atom _ lj, ri, rj]; exact hs
+  · rintro ⟨i, hi, j, hj, hne, hs⟩
     have li := (mem_members.mp hi).1
     have lj := (mem_members.mp hj).1
-    refine ⟨σ i, R.mem_members_fwd hi, σ j, R.mem_members_fwd hj, ⟨?_, ?_⟩, ?_⟩
+    refine ⟨σ i, R.mem_members_fwd hi, σ j, R.mem_members_fwd hj, ?_, ?_⟩
     · intro e; exact hne (R.inj li lj e)
-    · rw [R.atom _ li]; exact hs
-    · rw [R.atom _ li, R.atom _ lj]; exact he
+    · rw [R.atom _ li, R.atom _ lj]; exact hs
 
 theorem sameRes {u v : Nat} (hu : u < S.atoms.length) (hv : v < S.atoms.length) :
     SameRes S' (σ u) (σ v) ↔ SameRes S u v := by
@@ -316,6 +314,10 @@ theorem name_move (l : List C10.Atom) (i : Nat) :
     (atomAt (l.map (moveAtom10 A t)) i).name = (atomAt l i).name :=
   atomAt_move_proj A t (β := Option String) (fun a => a.name) (fun _ => rfl) l i
 
+theorem nameNone_move (l : List C10.Atom) (i : Nat) :
+    (atomAt (l.map (moveAtom10 A t)) i).nameNone = (atomAt l i).nameNone :=
+  atomAt_move_proj A t (β := Bool) (fun a => a.nameNone) (fun _ => rfl) l i
+
 theorem element_move (l : List C10.Atom) (i : Nat) :
     (atomAt (l.map (moveAtom10 A t)) i).element = (atomAt l i).element :=
   atomAt_move_proj A t (β := Option String) (fun a => a.element) (fun _ => rfl) l i
@@ -344,7 +346,7 @@ theorem namePass_move (l : List C10.Atom) (ff : FF) (k : ResKey) :
   rw [members_move]
   have hd : hasDupName (l.map (moveAtom10 A t)) (members l k) = hasDupName l (members l k) := by
     unfold hasDupName
-    simp only [name_move]
+    simp only [name_move, nameNone_move]
   have hm : ∀ b, mapPair (l.map (moveAtom10 A t)) (members l k) b = mapPair l (members l k) b := by
     intro b
     funext e
